@@ -295,6 +295,7 @@ func (l *fileBasedLoader) Discover(c px.Context, predicate func(px.TypedName) bo
 }
 
 func (l *fileBasedLoader) GetContent(c px.Context, path string) []byte {
+	countRead(path)
 	content, err := ioutil.ReadFile(path)
 	if err != nil {
 		panic(px.Error(px.UnableToReadFile, issue.H{`path`: path, `detail`: err.Error()}))
